@@ -27,6 +27,18 @@ func (f *Frame) headerRange(li *loopInfo) (*ssa.Alloc, ssa.Value) {
 func (f *Frame) loopEval(li *loopInfo, st *State, reach string) *EvalCtx {
 	ev := f.evalCtx(st, reach)
 	ev.inLoop = true
+	// innermost enclosing loop (for outer(...))
+	var parent *loopInfo
+	for _, cand := range f.loops {
+		if cand != li && cand.blocks[li.header] {
+			if parent == nil || len(cand.blocks) < len(parent.blocks) {
+				parent = cand
+			}
+		}
+	}
+	if parent != nil && parent.hdrState != nil {
+		ev.outer = parent.hdrState
+	}
 	ri, it := f.headerRange(li)
 	if ri != nil {
 		if v, ok := st.cells[ri]; ok {
